@@ -161,7 +161,8 @@ def run(ctx, replay=None):
                 if np.isfinite(f_ro) and f_ro < f_cof * (1 - 0.02) - 1e-9 * max(1.0, f_cof):
                     ctx.problem('oracle', 're-optimising from the reported parameters lowers the sigma-weighted objective from %r to %r' % (f_cof, f_ro), case,
                                 {'cof': cof.tolist(), 'reoptimised': ro.x.tolist()},
-                                {'what': 'not-a-local-minimum', 'class': 'weighted-multi-parameter' if (len(cof) >= 3 and sg is not None) else 'other'})
+                                {'what': 'not-a-local-minimum', 'class': 'weighted-multi-parameter' if (len(cof) >= 3 and sg is not None)
+                                 else 'lm-shape-model' if (case['method'] == 'lm' and any(m_ in mname for m_ in ('matern', 'stable')) and len(cof) >= 3) else 'other'})
             except (ZeroDivisionError, FloatingPointError, ValueError) as e:
                 ctx.count('objective_rejected', type(e).__name__)
             # ---- oracle: an (always empty) zero-width lag class neither breaks nor influences the fit
@@ -186,6 +187,25 @@ def run(ctx, replay=None):
                         ctx.count('insertion_rejected', type(e).__name__)
                     else:
                         ctx.problem('oracle', 'an empty (zero-width) lag class breaks the fit: %s %s' % (type(e).__name__, str(e)[:80]), case, None, {'what': 'empty-class-breaks'})
+            # ---- weights assigned on the fitted instance (property, no explicit fit() call): the parameters read afterwards are the
+            # fit under THOSE weights, i.e. what a fresh instance with the same weights reports
+            if rng.random() < 0.4 and case['method'] == 'trf':
+                try:
+                    form = rng.choice(['list', 'ndarray', 'string'])
+                    wts = [0.5 + 0.25 * ((i * 7) % 5) for i in range(len(bins))]
+                    new_sigma = wts if form == 'list' else np.array(wts) if form == 'ndarray' else rng.choice(['linear', 'sqrt', 'sq'])
+                    L = Variogram(c, v, **dict(kw, fit_sigma=None))
+                    _ = L.parameters
+                    L.fit_sigma = new_sigma
+                    pl = np.asarray(L.parameters, float)
+                    F = Variogram(c, v, **dict(kw, fit_sigma=new_sigma))
+                    pf = np.asarray(F.parameters, float)
+                    if len(pl) != len(pf) or not all(gen.close(a, b, 1e-6, 1e-9) for a, b in zip(pl, pf)):
+                        ctx.problem('oracle', 'after assigning fit_sigma (%s) on a fitted instance the reported parameters are not the fit under those weights' % form, dict(case, assigned_sigma=form),
+                                    {'inplace': pl.tolist(), 'fresh': pf.tolist()}, {'what': 'sigma-assigned-in-place', 'form': form})
+                    ctx.tests['sigma_assignments'] = ctx.tests.get('sigma_assignments', 0) + 1
+                except Exception as e:
+                    ctx.count('sigma_assignment_rejected', type(e).__name__)
             ctx.case_done(case, True)
         vc.run_golden(ctx, coq, model)
     finally:
